@@ -247,6 +247,21 @@ def mass_properties(
     if density is None:
         density = 1.0
 
+    # integrate about a point inside the bounds of the triangles rather
+    # than about the origin: for a solid of size `L` at distance `D` the
+    # surface terms are of order `D^3 L^2` and have to cancel to `L^5`
+    reference = np.zeros(3, dtype=np.float64)
+    if len(triangles) > 0:
+        corners = triangles.reshape((-1, 3))
+        center = corners.min(axis=0) * 0.5 + corners.max(axis=0) * 0.5
+        if np.isfinite(center).all():
+            reference = center
+    triangles = triangles - reference
+    # an overridden center of mass is reported back as it was passed
+    override = center_mass
+    if override is not None:
+        center_mass = np.asanyarray(override, dtype=np.float64) - reference
+
     # these are the subexpressions of the integral
     # this is equvilant but 7x faster than triangles.sum(axis=1)
     f1 = triangles[:, 0, :] + triangles[:, 1, :] + triangles[:, 2, :]
@@ -295,7 +310,7 @@ def mass_properties(
         # compare with their magnitude, not with an absolute length scale
         if np.abs(volume) <= tol.zero * np.abs(integral[0]).sum() / 6.0:
             # if there is no volume set center of mass to the origin
-            center_mass = np.zeros(3, dtype=np.float64)
+            center_mass = -reference
         else:
             # otherwise get it from the integration
             center_mass = integrated[1:4] / volume
@@ -304,7 +319,7 @@ def mass_properties(
         density=density,
         mass=density * volume,
         volume=volume,
-        center_mass=center_mass,
+        center_mass=center_mass + reference if override is None else override,
     )
 
     if skip_inertia:
